@@ -646,7 +646,7 @@ func (r *c15Run) randOp() nsOp {
 func runC15(h *H) {
 	imports := []string{"From GoImap.Base Require Import Bytes.", "From GoImap.Model Require Import NumSet NumSetCorr."}
 	r := &c15Run{h: h}
-	r.corr = h.NewCorr("ops", imports, "ops_mismatches", 400)
+	r.corr = h.NewCorr("ops", imports, "ops_mismatches", 400).Type("ops_case")
 	r.pcorr = h.NewCorr("parse", imports, "parse_mismatches", 1500).Type("parse_case")
 	h.Rule("op sequences (AddNum/AddRange/AddSet) on imapnum.Set, imap.SeqSet and imap.UIDSet: corpus, exhaustive over endpoints {*,1,2,3,5,2^32-2,2^32-1} up to the tier's length, seeded random up to 40 ops; ParseSet on all strings over {0,1,9,:,,,*} up to the tier's length plus corpus and mutated valid sets. Non-trivial = an insertion merged or split ranges (range count did not grow by the number of ranges inserted), or a valid parse input with ':' or ','; distinct by (flavour, ops) / text.")
 
